@@ -582,9 +582,59 @@ def r14_5(chk: Check) -> None:
     chk.floor("R14.5", 6)
 
 
+def r14_6(chk: Check) -> None:
+    """the buffer that collects the per-pair blocks is allocated once: before the pair loops, or inside them under a guard that only the first
+    file passes -- re-allocating it later wipes the blocks already stored"""
+    S = chk.src
+    fi = S.func(f"{CA}.newFromDirectory")
+    chk.touch(fi.name)
+    loops = [x for x in ast.walk(fi.node) if isinstance(x, ast.For) and isinstance(x.iter, ast.Call) and _short(x.iter) == "enumerate"
+             and isinstance(x.target, ast.Tuple) and isinstance(x.target.elts[0], ast.Name)]
+    outer = [l for l in loops if any(m is not l and any(y is m for y in ast.walk(l)) for m in loops)]
+    inner = [m for l in outer for m in loops if m is not l and any(y is m for y in ast.walk(l))]
+    if len(outer) != 1 or len(inner) != 1:
+        raise AnchorMissing("newFromDirectory: the two nested enumerate(particles) loops not found")
+    i, j = outer[0].target.elts[0].id, inner[0].target.elts[0].id
+    stores = [st for st in ast.walk(inner[0]) if isinstance(st, ast.Assign) and isinstance(st.targets[0], ast.Subscript)
+              and isinstance(st.targets[0].value, ast.Name) and {i, j} <= {x.id for x in ast.walk(st.targets[0].slice) if isinstance(x, ast.Name)}]
+    if len(stores) != 1:
+        raise AnchorMissing("newFromDirectory: the per-pair store buffer[i, ..., j, ...] = dataset not found")
+    B = stores[0].targets[0].value.id
+    in_loop = {id(y) for y in ast.walk(outer[0])}
+    allocs = []
+    for guards, st in walk_guarded(fi.node):
+        if isinstance(st, (ast.Assign, ast.AnnAssign)) and n(st.targets[0] if isinstance(st, ast.Assign) else st.target) == B and st.value is not None \
+                and isinstance(st.value, ast.Call) and _short(st.value) in ("zeros", "empty", "full", "zeros_like", "empty_like"):
+            allocs.append((guards, st))
+    if not allocs:
+        raise AnchorMissing(f"newFromDirectory: the allocation of the pair buffer `{B}` not found")
+    bad = []
+    for guards, st in allocs:
+        if id(st) not in in_loop:
+            continue          # allocated once, before the loops
+        first_only = False
+        for t, pol in guards:
+            if isinstance(t, tuple):
+                continue
+            conj = list(t.values) if isinstance(t, ast.BoolOp) and isinstance(t.op, ast.And) and pol else [t]
+            if pol and any(eqx(c, f'"{B}" not in locals()') or eqx(c, f"{B} is None") for c in conj):
+                first_only = True
+            if pol and any(eqx(c, f"{i} == 0") for c in conj) and any(eqx(c, f"{j} == 0") for c in conj):
+                first_only = True
+            if pol and any(eqx(c, f"{i} + {j} == 0") or eqx(c, f"({i}, {j}) == (0, 0)") for c in conj):
+                first_only = True
+            if (not pol) and (eqx(t, f'"{B}" in locals()') or eqx(t, f"{B} is not None")):
+                first_only = True
+        if not first_only:
+            bad.append(f"line {st.lineno}: `{B} = {_short(st.value)}(...)` inside the pair loops under guards {[n(t) for t, _ in guards if not isinstance(t, tuple)][-2:]}")
+    chk.ob("R14.1", fi.where(allocs[0][1]), "the buffer receiving the per-pair blocks is allocated once (before the pair loops, or under a guard only the "
+           "first file passes): blocks stored for earlier pairs are never wiped", not bad, "; ".join(bad)[:300], key="alloc-once")
+
+
 def rules(chk: Check) -> None:
     chk.src.cls(CA)
     r14_1(chk)
+    r14_6(chk)
     r14_2(chk)
     r14_3(chk)
     r14_4(chk)
